@@ -422,6 +422,11 @@ def jobs(tier):
         for w in WINDOWS:
             out.append(StreamRun(fe, n, (w,)))
         out.append(StreamRun(fe, n, ("closed", "none")))
+        # two contexts whose windows interact through anything shared between loop iterations
+        out.append(StreamRun(fe, n, ("end", "start")))
+        out.append(StreamRun(fe, n, ("start", "end"), axes=("z",)))
+        out.append(StreamRun(fe, n, ("closed", "closed"), axes=()))
+        out.append(StreamRun(fe, n, ("end", "none"), axes=()))
         out.append(StreamRun(fe, n, ("closed",), axes=()))
         out.append(StreamRun(fe, n, ("start",), axes=("z",), tests=("probe_test", "spike_test")))
         if fe != "qcconfig":
